@@ -277,6 +277,6 @@ def run(ctx):
     ctx.rule("C20.env", "envelope provenance in encryptParams", floor=6)
     ctx.rule("C20.order", "parameter order and percent-encoding table", floor=10)
     ctx.assume("SHA-1, base64, X25519 agreement and AES-GCM primitives are trusted; equality with independent computations is not decided")
-    rule_hmac(ctx)
-    rule_env(ctx)
-    rule_order(ctx)
+    ctx.guarded("C20.hmac", rule_hmac, ctx)
+    ctx.guarded("C20.env", rule_env, ctx)
+    ctx.guarded("C20.order", rule_order, ctx)
